@@ -57,11 +57,14 @@ def _inject_in(doc, ch, kinds, lo, hi, at=None, exclude=()):
 
 
 def build(entry, ch, acc, max_faults=4, shapes=None, flavor='plain', avoid='~*:^', kinds=None, hostile_values=None, envelope=0.0, malformed=0.0, big=0.0, keep_empty_tail=0.0,
-          by_set=0.0, twin_sets=0.0):
+          by_set=0.0, twin_sets=0.0, cluster=0.0, respell_twin=0.0):
     """-> (doc, [expectations]) or None
 
     by_set: probability that faults are placed by first drawing which sets are faulty (each with p=.5) and then one fault inside each;
-    twin_sets: probability that one set is cloned and the two copies get different faults at the same segment."""
+    twin_sets: probability that one set is cloned and the two copies get different faults at the same segment;
+    cluster: probability that two or three element-level faults of ONE kind go into one segment, different components of one
+    composite first; respell_twin: probability that one set is cloned and the composites of the copy are re-spelled with trailing
+    empty components (same canonical segment, different source text), no fault."""
     shape = ch.choice(shapes or [(1, 1, 1), (1, 1, 2), (1, 1, 3), (1, 2, 1), (1, 2, 2), (2, 1, 1), (2, 2, 1), (1, 3, 2)])
     kw = dict(p_seg=ch.choice([.2, .4, .7]), p_loop=ch.choice([.15, .3]), max_rep=2, shape=shape, max_segs=250)
     if big and ch.chance(big):
@@ -134,6 +137,48 @@ def build(entry, ch, acc, max_faults=4, shapes=None, flavor='plain', avoid='~*:^
                     exp['twin'] = True
                     used.append(exp['kind'])
                     exps.append(exp)
+    elif respell_twin and ch.chance(respell_twin) and set_bounds(doc):
+        k = ch.integer(0, len(set_bounds(doc)) - 1)
+        clone_set(doc, k, ch.seed() % 10 ** 9)
+        a2, b2 = set_bounds(doc)[k + 1]
+        a1, b1 = set_bounds(doc)[k]
+        which = (a2, b2) if ch.chance(.6) else (a1, b1)
+        n_ = 0
+        for s_ in doc.segs[which[0] + 1:which[1]]:
+            for ei, c in enumerate(s_.node.children):
+                if c.kind == 'comp' and ei < len(s_.vals) and any(s_.vals[ei]) and len(s_.vals[ei]) < len(c.children) and ch.chance(.6):
+                    s_.vals[ei] = list(s_.vals[ei]) + [''] * ch.integer(1, len(c.children) - len(s_.vals[ei]))
+                    n_ += 1
+        if n_:
+            exps.append({'kind': 'respelled-twin', 'respell': True})
+    elif cluster and ch.chance(cluster):
+        nf = ch.choice([0, 0, 1])
+        for kind in [ch.choice(['too-long', 'wrong-char-class', 'too-short', 'control-char', 'not-in-code-list'])]:
+            by_seg = {}
+            for c in faults.candidates(doc, kind):
+                by_seg.setdefault(c[0], []).append(c)
+            # segments in which one composite offers two places first, then any segment offering two
+            def same_comp(cs):
+                seen = {}
+                for c in cs:
+                    if c[2] is not None:
+                        seen.setdefault(c[1], []).append(c)
+                return [v for v in seen.values() if len(v) >= 2]
+            best = [(i, same_comp(cs)) for i, cs in sorted(by_seg.items()) if same_comp(cs)]
+            if best and ch.chance(.8):
+                i, groups = best[ch.integer(0, len(best) - 1)]
+                locs = groups[ch.integer(0, len(groups) - 1)][:3]
+            else:
+                multi = [cs for i, cs in sorted(by_seg.items()) if len(cs) >= 2]
+                if not multi:
+                    break
+                locs = multi[ch.integer(0, len(multi) - 1)][:ch.choice([2, 3])]
+            for loc in locs:
+                res = faults.inject(doc, kind, loc, ch.seed())
+                if res is not None:
+                    doc, exp = res
+                    exp['cluster'] = True
+                    exps.append(exp)
     elif by_set and ch.chance(by_set) and len(set_bounds(doc)) > 1:
         nf = 0
         nsets = len(set_bounds(doc))
@@ -184,8 +229,40 @@ def build(entry, ch, acc, max_faults=4, shapes=None, flavor='plain', avoid='~*:^
     return doc, exps
 
 
+def build_mixed(ch, acc, with_ack_groups=True, **kw):
+    """One interchange whose 2..4 functional groups come from two or three maps of one version (acknowledgement groups
+    included), each part built - and damaged - on its own by build().  -> (doc, [expectations]) or None"""
+    icvn = ch.choice(['00401', '00401', '00501'])
+    pool = c02.mixed_pool(icvn)
+    if with_ack_groups:
+        pool = pool + [e for e in entries(exclude_ack=False) if e['icvn'] == icvn and e['fic'] == 'FA' and e['vriic'] in ('004010', '005010X231')]
+    picks = [pool[ch.integer(0, len(pool) - 1)] for _ in range(ch.choice([2, 2, 3]))]
+    seq = picks[:2] + [picks[ch.integer(0, len(picks) - 1)] for _ in range(ch.choice([0, 1, 1, 2]))]
+    if seq[-1]['fic'] == 'FA':
+        # pyx12 decides from the last group whether an acknowledgement is written at all (none for acknowledgements): keep a
+        # transaction group last so that there is an acknowledgement to look at
+        non = [e for e in seq if e['fic'] != 'FA']
+        if not non:
+            return None
+        seq = [e for e in seq if e is not non[-1]] + [non[-1]]
+    docs = []
+    exps = []
+    for e in seq:
+        res = build(e, ch, acc, shapes=[(1, 1, 1), (1, 1, 2)], **kw)
+        if res is None:
+            return None
+        docs.append(res[0])
+        exps += res[1]
+    try:
+        doc = docgen.merge_docs(docs)
+    except docgen.GenFail:
+        return None
+    exps.append({'kind': 'mixed-maps', 'mixed': True})
+    return doc, exps
+
+
 ENVELOPE_FAULTS = ['se-count', 'se-id', 'ge-count', 'ge-id', 'iea-count', 'iea-id', 'gs-date', 'gs-time', 'st-dup', 'gs-dup', 'gs-code',
-                   'se-count-alpha', 'st-id-long', 'se-count', 'st-dup', 'st-many-codes', 'st-many-codes', 'st-many-codes', 'drop-trailer', 'st-dup-far', 'gs-dup-far']
+                   'se-count-alpha', 'st-id-long', 'se-count', 'st-dup', 'st-many-codes', 'st-many-codes', 'st-many-codes', 'drop-trailer', 'st-dup-far', 'gs-dup-far', 'trailer-and-neighbour', 'trailer-and-neighbour']
 
 
 def envelope_fault(doc, ch):
@@ -227,6 +304,21 @@ def _envelope_fault(doc, ch):
                         break
                 return kind
         return None
+    elif kind == 'trailer-and-neighbour':
+        # an element error on a trailer and one at the same element position of the segment right before it
+        c = [i for i, s_ in enumerate(doc.segs) if s_.id == 'SE' and i > 0 and doc.segs[i - 1].id not in ('ST', 'ISA', 'GS')]
+        if not c:
+            return None
+        i = c[ch.integer(0, len(c) - 1)]
+        se, prev = doc.segs[i], doc.segs[i - 1]
+        pos = ch.choice([0, 1])
+        if pos == 0:
+            se.vals[0] = ['X1']
+        else:
+            se.vals[1] = [se.vals[1][0] + '999999X']
+        while len(prev.vals) <= pos:
+            prev.vals.append([''])
+        prev.vals[pos] = ['Z' * 90]
     elif kind in ('st-dup-far', 'gs-dup-far'):
         # a control number re-used non-adjacently within its scope (0001 0002 0001)
         hid, tid, scope, pos = ('ST', 'SE', 'GS', 1) if kind == 'st-dup-far' else ('GS', 'GE', 'ISA', 5)
@@ -306,4 +398,5 @@ def meta_of(doc, exps):
             'faults': [e['kind'] for e in exps], 'nsets': sum(1 for s in doc.segs if s.id == 'ST'),
             'ngroups': sum(1 for s in doc.segs if s.id == 'GS'), 'nisa': sum(1 for s in doc.segs if s.id == 'ISA'),
             'body': len(body), 'hostile': any(e.get('hostile') for e in exps),
-            'placement': 'twin-sets' if any(e.get('twin') for e in exps) else 'by-set' if any(e.get('by_set') for e in exps) else 'free'}
+            'placement': 'twin-sets' if any(e.get('twin') for e in exps) else 'by-set' if any(e.get('by_set') for e in exps)
+            else 'mixed-maps' if any(e.get('mixed') for e in exps) else 'cluster' if any(e.get('cluster') for e in exps) else 'respelled-twin' if any(e.get('respell') for e in exps) else 'free'}
